@@ -58,12 +58,21 @@ def exc_class(e):
     return (type(e).__name__, frame)
 
 
+HANGS = [0]
+
+
+def budget(seconds):
+    """after three calls that did not return the verdict is in: later calls get 5 s instead of a minute each, so that a change which
+    makes the code loop is reported in minutes, not hours"""
+    return seconds if HANGS[0] < 3 else min(seconds, 5)
+
+
 def run_shaper(nt_text, cfg, output_format=None, timeout=60, input_format=None, **extra):
     """-> ('ok', text) | ('exc', (class, frame), message) | ('hang',)"""
     kw = shaper_kwargs(cfg)
     kw.update(extra)
     old = signal.signal(signal.SIGALRM, _alarm)
-    signal.alarm(timeout)
+    signal.alarm(budget(timeout))
     try:
         s = Shaper(raw_graph=nt_text, input_format=input_format or C.NT, **kw)
         a, b = cfg['th']
@@ -71,6 +80,7 @@ def run_shaper(nt_text, cfg, output_format=None, timeout=60, input_format=None, 
                             output_format=output_format or C.SHEXC)
         return ('ok', text)
     except Hang:
+        HANGS[0] += 1
         return ('hang',)
     except Exception as e:
         return ('exc', exc_class(e), str(e)[:200])
@@ -82,10 +92,11 @@ def run_shaper(nt_text, cfg, output_format=None, timeout=60, input_format=None, 
 def guarded(fn, seconds=60):
     """run fn() under an alarm: -> (result, None) | (None, ('hang', 'Hang', ...)) ; exceptions of fn propagate"""
     old = signal.signal(signal.SIGALRM, _alarm)
-    signal.alarm(seconds)
+    signal.alarm(budget(seconds))
     try:
         return fn(), None
     except Hang:
+        HANGS[0] += 1
         return None, ('hang', 'Hang', 'no result within %d s' % seconds)
     finally:
         signal.alarm(0)
